@@ -47,6 +47,19 @@ PROPS = {
         phases=[P(kind="fuzz", bin="c04_names", runs_quick=12000, runs_thorough=2000000, workers_quick=12, workers_thorough=16, max_len=512, rss=4000, timeout=120, detect_leaks=0)],
         floor_quick=600, floor_thorough=50000,
     ),
+    "C05": P(
+        title="unicast: exactly the current owner, once, in order",
+        level="exploration",
+        technique="stateful model-based testing with serialisation search: libFuzzer-generated histories and multi-client batches on an in-process bus; the observation must equal the routing model's outcome under some order that respects each client's own order",
+        level_text=("Exploration: histories of sends (all four message types, flag combinations, to well-known, unique, unowned and departed names), RequestName/ReleaseName and socket closes by 3-4 raw "
+                    "clients, issued singly or as batches of 2-4 operations from several clients written before the bus runs; an eavesdropper and a broadcast-only bystander observe; observers may read "
+                    "late. Every client's frames (token-carrying bodies, all defined header fields, true sender) are compared in order with the model for every admissible serialisation of the batch; "
+                    "undeliverable calls must earn exactly one error with their serial; NoReply errors on callee disconnect are modelled; final registry state is checked."),
+        level_note="The daemon is single-threaded: 'schedules' = order in which bytes of different clients become readable, explored through batches (<=4 ops, <=24 serialisations). Eavesdroppers' copies of bus-originated unicast frames and of undeliverable messages are [U] (optional). Trusts busmodel.cc, matchmodel.cc, wire.cc.",
+        rule=("case = history decoded from fuzzer input. Non-trivial = some batch contained a send and an ownership change or close affecting its destination; distinct = FNV-1a of the log with unique names renamed."),
+        phases=[P(kind="fuzz", bin="c05_unicast", runs_quick=14000, runs_thorough=3000000, workers_quick=12, workers_thorough=16, max_len=1024, rss=4000, timeout=120, detect_leaks=0)],
+        floor_quick=600, floor_thorough=50000,
+    ),
     "C07": P(
         title="broadcasts reach exactly the matching connections",
         level="exploration",
